@@ -1583,6 +1583,8 @@ isin = in1d
 
 
 def __getattr__(name):
+    if name.startswith('__'):
+        raise AttributeError(name)
     if name == 'pi':
         return PI_PROVIDER() if PI_PROVIDER is not None else f64(math.pi)
     raise ModelGap("numpy.%s is not modelled" % name)
